@@ -166,6 +166,7 @@ func (n *Notifier) PublishContext(ctx context.Context, key any, value any) {
 	}
 
 	for len(successCases) != 0 {
+		verifHook("notifier.publish.select")
 		var (
 			exitIndex, _, _ = reflect.Select(append(append(append(make([]reflect.SelectCase, 0, len(exitCases)+len(failureCases)+len(successCases)), exitCases...), failureCases...), successCases...))
 			failureIndex    = exitIndex - len(exitCases)
